@@ -2,7 +2,7 @@
    Statements only; proofs: CompositeProofs.v.  Inner solvers are abstract functions. *)
 From Amgcl Require Import Scalar QcInst Vec Crs Kernels KernelsProofs MatOps Adapters Composite CompositeProofs CompositeProofs2
   CompositeProofs3 CompositeProofs4 CompositeProofs5 CompositeExamples
-  Cpr CprProofs CprProofs2 CprProofs3 CprProofs4 CprProofs5 CprProofs6.
+  Cpr CprProofs CprProofs2 CprProofs3 CprProofs4 CprProofs5 CprProofs6 CprProofs7.
 Local Open Scope S_scope.
 
 Section Ring.
@@ -312,6 +312,18 @@ Theorem C18_cpr_partial_update_same (S : Scalar) B active (K : crs S) (junk : ve
   cpr_partial_update B active (cpr_make B active K junk) K true junk = cpr_make B active K junk.
 Proof. exact (cpr_partial_update_same B active K junk). Qed.
 Print Assumptions C18_cpr_partial_update_same.
+
+(* the sorting done by the template constructors is the identity on sorted input, so the
+   statements about init() (cpr_setup / cprb_setup) below apply to what cpr(K, prm) builds from a
+   matrix with sorted rows and from its block view (any Scalar) *)
+Theorem C18_cpr_constructor_on_sorted_input (S : Scalar) B active (K : crs S) (junk : vec S) : 0 < B ->
+  Forall (fun r => sorted_strict r = true) (rows K) ->
+  cpr_make B active K junk = cpr_setup B active K junk /\
+  cprb_make B active (to_gcrs (block_adapter B (crs_view K))) junk = cprb_setup B active (to_gcrs (block_adapter B (crs_view K))) junk.
+Proof.
+  intros HB Hs. split; [exact (cpr_make_sorted B active K junk (strict_all_weak _ Hs))|exact (cprb_make_block_view B active K junk HB Hs)].
+Qed.
+Print Assumptions C18_cpr_constructor_on_sorted_input.
 
 Section Ring3.
 Variable S : Scalar.
